@@ -1,4 +1,4 @@
-// verif:properties C11
+// verif:properties C11 C17
 package uhppote
 
 import (
@@ -44,3 +44,6 @@ func c11Sockets(k int) {
 func VerifC11_Sockets1()   { c11Sockets(1) }
 func VerifC11_Sockets2()   { c11Sockets(2) }
 func VerifC11_T_Sockets3() { c11Sockets(3) }
+
+// C17: the entries of one discovery are decoded from independent copies of the receive buffer
+func VerifC17_BroadcastReplies() { c11Sockets(2) }
